@@ -1,6 +1,7 @@
 import Driver.Proto
 import Model.Eval
 import Model.EvalFixed
+import Model.EvalFloat
 import Generated.Facts
 open Proto Eval
 
@@ -11,7 +12,10 @@ open Proto Eval
     `a <hex>`      NextArg -> `<hex> <hex>`
     `x <k> <z> <hex>`  value pass of the FIXED evaluator, computed by the model (`Model/EvalFixed.lean`): configuration
                    `fixed.Dk`, divideByZeroReturnsZero = z, variables from the literal table ->
-                   `n <raw>` | `b true` | `b false` | `s <hex>` | `err` | `opaque` (depends on float64 arithmetic) -/
+                   `n <raw>` | `b true` | `b false` | `s <hex>` | `err` | `opaque` (depends on float64 arithmetic)
+    `y <bits> <z> <hex>`  value pass of the FLOAT evaluators, computed by the model (`Model/EvalFloat.lean` over the
+                   IEEE-754 arithmetic of `Model/EvalSoftFloat.lean`): `NewFloatEvaluator[float<bits>](resolver, z)`
+                   -> `n <bit pattern>` | `n nan` | `b …` | `s <hex>` | `err` | `opaque` (outside the model) -/
 
 def fixedOps : List Op := opsOf Facts.fixedOperators
 def floatOps : List Op := opsOf Facts.floatOperators
@@ -112,6 +116,17 @@ def step (st : St) (line : String) : St × String :=
         | .panic => "panic"
         | .outside => "opaque")
     | _, _, _ => (st, "bad-op")
+  | ["y", b, z, h] =>
+    match hexBytes? h, (if b == "64" then some SoftFloat.f64 else if b == "32" then some SoftFloat.f32 else none) with
+    | some s, some fm =>
+      (st, match EvalFloat.evaluate ⟨fm, z == "1"⟩ floatOps floatFns (some valueResolve) (driverBudget s + 1) s with
+        | .ok (.num x) => if SoftFloat.isNaN fm x then "n nan" else "n " ++ toString x
+        | .ok (.bool b) => if b then "b true" else "b false"
+        | .ok (.str t) => "s " ++ bytesHex t
+        | .err => "err"
+        | .panic => "panic"
+        | .outside => "opaque")
+    | _, _ => (st, "bad-op")
   | ["reset"] => ({}, "reset")
   | _ => (st, "bad-op")
 
